@@ -110,7 +110,11 @@ def run(tier, seed):
                              min_per_shard=12, tlc_timeout=3000, driver_timeout=2400, **kw)
         _verdicts(ev, label, events)
 
-    go("rsa-oaep", "std256", gen_enc.rsa_cases(rng, tier, "oaep"))
+    go("rsa-oaep", "std256", gen_enc.rsa_cases(rng, tier, "oaep") + gen_enc.rsa_hunt_cases(rng, tier, "1024:c0601", 1024))
+    # other modulus lengths (the byte / digit alignment of the encoded message changes): 592 and 656 bits
+    go("rsa-oaep-592", "std256", gen_enc.rsa_hunt_cases(rng, tier, "592:c0611", 592), shuffle=False)
+    if not quick:
+        go("rsa-oaep-656", "std256", gen_enc.rsa_hunt_cases(rng, tier, "656:c0612", 656), shuffle=False)
     go("ec", "std256", gen_enc.ec_cases(rng, tier))
     go("hom", "std256", gen_enc.paillier_cases(rng, tier) + gen_enc.bdpe_cases(rng, tier) + gen_enc.rabin_cases(rng, tier), shuffle=False)
     go("share", "std256", gen_enc.share_cases(rng, tier))
